@@ -9,6 +9,26 @@ From WK Require Import Base.Base Base.Bytes Gen.Consts_C11 Model.Backup Proof.Ba
 From Coq Require Import ZifyBool ZifyN ZifyNat.
 Open Scope N_scope.
 
+Lemma bytes_ltb_irrefl : forall a, bytes_ltb a a = false.
+Proof.
+  induction a as [|x a IH]; [reflexivity|]. cbn [bytes_ltb]. rewrite N.ltb_irrefl, N.eqb_refl, IH. reflexivity.
+Qed.
+
+Lemma bytes_ltb_trans : forall a b c, bytes_ltb a b = true -> bytes_ltb b c = true -> bytes_ltb a c = true.
+Proof.
+  induction a as [|x a IH]; intros b c H1 H2.
+  - destruct b as [|y b]; [discriminate|]. destruct c as [|z c]; [discriminate|]. reflexivity.
+  - destruct b as [|y b]; [discriminate|]. destruct c as [|z c]; [discriminate|].
+    cbn [bytes_ltb] in *. apply orb_true_iff in H1. apply orb_true_iff in H2. apply orb_true_iff.
+    destruct H1 as [H1|H1]; destruct H2 as [H2|H2].
+    + left. apply N.ltb_lt in H1. apply N.ltb_lt in H2. apply N.ltb_lt. lia.
+    + apply andb_true_iff in H2. destruct H2 as [E _]. apply N.eqb_eq in E. subst. left. exact H1.
+    + apply andb_true_iff in H1. destruct H1 as [E _]. apply N.eqb_eq in E. subst. left. exact H2.
+    + apply andb_true_iff in H1. apply andb_true_iff in H2. destruct H1 as [E1 L1]. destruct H2 as [E2 L2].
+      apply N.eqb_eq in E1. apply N.eqb_eq in E2. subst. right. rewrite N.eqb_refl. cbn [andb]. eapply IH; eassumption.
+Qed.
+
+
 Section Import.
   Variable ck : bytes -> N.
 
@@ -196,39 +216,59 @@ Section Import.
   (* ---- all-or-nothing on a target that does not hold the channels -------------------------- *)
   Definition absent (key : bytes) (tgt : list chan_dump) : Prop := find_dump key tgt = empty_dump key.
 
-  Lemma bytes_ltb_irrefl : forall a, bytes_ltb a a = false.
+  Lemma find_dump_absent key : forall ds, existsb (fun d => bytes_eqb (ch_key d) key) ds = false -> find_dump key ds = empty_dump key.
   Proof.
-    induction a as [|x a IH]; [reflexivity|]. cbn [bytes_ltb]. rewrite N.ltb_irrefl, N.eqb_refl, IH. reflexivity.
+    induction ds as [|d r IH]; cbn [existsb find_dump]; intro E; [reflexivity|].
+    apply orb_false_iff in E. destruct E as [E1 E2]. rewrite E1. apply IH. exact E2.
   Qed.
 
-  Lemma bytes_ltb_trans : forall a b c, bytes_ltb a b = true -> bytes_ltb b c = true -> bytes_ltb a c = true.
+  Lemma find_dump_insert_other key x : ch_key x <> key -> forall ds, find_dump key (insert_dump x ds) = find_dump key ds.
   Proof.
-    induction a as [|x a IH]; intros b c H1 H2.
-    - destruct b as [|y b]; [discriminate|]. destruct c as [|z c]; [discriminate|]. reflexivity.
-    - destruct b as [|y b]; [discriminate|]. destruct c as [|z c]; [discriminate|].
-      cbn [bytes_ltb] in *. apply orb_true_iff in H1. apply orb_true_iff in H2. apply orb_true_iff.
-      destruct H1 as [H1|H1]; destruct H2 as [H2|H2].
-      + left. apply N.ltb_lt in H1. apply N.ltb_lt in H2. apply N.ltb_lt. lia.
-      + apply andb_true_iff in H2. destruct H2 as [E _]. apply N.eqb_eq in E. subst. left. exact H1.
-      + apply andb_true_iff in H1. destruct H1 as [E _]. apply N.eqb_eq in E. subst. left. exact H2.
-      + apply andb_true_iff in H1. apply andb_true_iff in H2. destruct H1 as [E1 L1]. destruct H2 as [E2 L2].
-        apply N.eqb_eq in E1. apply N.eqb_eq in E2. subst. right. rewrite N.eqb_refl. cbn [andb]. eapply IH; eassumption.
+    intros Hne. induction ds as [|d r IH]; cbn [insert_dump find_dump].
+    - destruct (bytes_eqb (ch_key x) key) eqn:E; [apply bytes_eqb_eq in E; contradiction|reflexivity].
+    - destruct (bytes_ltb (ch_key x) (ch_key d)); cbn [find_dump].
+      + destruct (bytes_eqb (ch_key x) key) eqn:E; [apply bytes_eqb_eq in E; contradiction|reflexivity].
+      + destruct (bytes_eqb (ch_key d) key); [reflexivity|exact IH].
+  Qed.
+
+  Lemma find_dump_insert_same x : forall ds,
+    existsb (fun d => bytes_eqb (ch_key d) (ch_key x)) ds = false -> find_dump (ch_key x) (insert_dump x ds) = x.
+  Proof.
+    induction ds as [|d r IH]; cbn [existsb insert_dump find_dump]; intro E.
+    - rewrite (proj2 (bytes_eqb_eq _ _) eq_refl). reflexivity.
+    - apply orb_false_iff in E. destruct E as [E1 E2].
+      destruct (bytes_ltb (ch_key x) (ch_key d)); cbn [find_dump].
+      + rewrite (proj2 (bytes_eqb_eq _ _) eq_refl). reflexivity.
+      + rewrite E1. apply IH. exact E2.
   Qed.
 
   Lemma find_dump_update_other key k f :
     (forall d, ch_key (f d) = ch_key d) -> key <> k ->
     forall tgt, find_dump key (update_dump k f tgt) = find_dump key tgt.
   Proof.
-    intros Hf Hne. induction tgt as [|d r IH]; cbn [update_dump find_dump].
-    - rewrite Hf. cbn [ch_key empty_dump].
-      destruct (bytes_eqb k key) eqn:E; [apply bytes_eqb_eq in E; congruence|reflexivity].
-    - destruct (bytes_eqb (ch_key d) k) eqn:Ek.
+    intros Hf Hne tgt. unfold update_dump.
+    destruct (existsb (fun d => bytes_eqb (ch_key d) k) tgt).
+    - induction tgt as [|d r IH]; cbn [update_in_place find_dump]; [reflexivity|].
+      destruct (bytes_eqb (ch_key d) k) eqn:Ek.
       + apply bytes_eqb_eq in Ek. cbn [find_dump]. rewrite Hf.
         destruct (bytes_eqb (ch_key d) key) eqn:Ekey; [apply bytes_eqb_eq in Ekey; congruence|reflexivity].
-      + destruct (bytes_ltb k (ch_key d)).
-        * cbn [find_dump]. rewrite Hf. cbn [ch_key empty_dump].
-          destruct (bytes_eqb k key) eqn:E; [apply bytes_eqb_eq in E; congruence|reflexivity].
-        * cbn [find_dump]. destruct (bytes_eqb (ch_key d) key); [reflexivity|exact IH].
+      + cbn [find_dump]. destruct (bytes_eqb (ch_key d) key); [reflexivity|exact IH].
+    - apply find_dump_insert_other. rewrite Hf. cbn [ch_key empty_dump]. congruence.
+  Qed.
+
+  Lemma find_dump_update_same k f :
+    (forall d, ch_key (f d) = ch_key d) ->
+    forall tgt, find_dump k (update_dump k f tgt) = f (find_dump k tgt).
+  Proof.
+    intros Hf tgt. unfold update_dump.
+    destruct (existsb (fun d => bytes_eqb (ch_key d) k) tgt) eqn:Ex.
+    - induction tgt as [|d r IH]; cbn [existsb] in Ex; [discriminate|].
+      cbn [update_in_place find_dump]. destruct (bytes_eqb (ch_key d) k) eqn:Ek.
+      + cbn [find_dump]. rewrite Hf, Ek. reflexivity.
+      + cbn [orb] in Ex. cbn [find_dump]. rewrite Ek. apply IH. exact Ex.
+    - rewrite (find_dump_absent _ _ Ex).
+      assert (Hk : ch_key (f (empty_dump k)) = k) by (rewrite Hf; reflexivity).
+      rewrite <- Hk at 1. apply find_dump_insert_same. rewrite Hk. exact Ex.
   Qed.
 
   Lemma install_meta_key h d : ch_key (install_meta h d) = ch_key d.
